@@ -20,7 +20,7 @@ JAR = "/opt/veriftools/tla/tla2tools.jar:/opt/veriftools/tla/CommunityModules-de
 NCPU = int(os.environ.get("VERIF_JOBS", "16"))
 
 WRAPS = ("malloc free time rand random clock_gettime gettimeofday getrandom getentropy calloc realloc timespec_get clock rand_r drand48 lrand48 mrand48 "
-         "arc4random arc4random_buf arc4random_uniform posix_memalign aligned_alloc memalign valloc strdup strndup explicit_bzero strtok getenv secure_getenv setlocale").split()
+         "arc4random arc4random_buf arc4random_uniform posix_memalign aligned_alloc memalign valloc strdup strndup explicit_bzero strtok getenv secure_getenv setlocale prctl").split()
 
 SAN = ["-fsanitize=address,undefined", "-fno-sanitize-recover=all", "-fno-omit-frame-pointer", "-g"]
 VARIANTS = {
